@@ -4,6 +4,8 @@ import (
 	"fmt"
 	"log/slog"
 	"regexp"
+	"regexp/syntax"
+	"strings"
 	"time"
 
 	"github.com/cloudflare/pint/internal/checks"
@@ -201,6 +203,15 @@ func isEnabled(enabledChecks, disabledChecks []string, rule parser.Rule, name st
 }
 
 func strictRegex(s string) *regexp.Regexp {
+	if strings.Contains(s, "|") {
+		// Anchor the whole pattern, not just its first and last alternative:
+		// "^" + "a|b" + "$" would mean (^a)|(b$). The pattern is re-printed from its
+		// parsed form so that constructs that run to the end of the text (an
+		// unterminated \Q quotation) cannot swallow the closing bracket.
+		if parsed, err := syntax.Parse(s, syntax.Perl); err == nil {
+			return regexp.MustCompile("^(?:" + parsed.String() + ")$")
+		}
+	}
 	return regexp.MustCompile("^" + s + "$")
 }
 
